@@ -138,9 +138,11 @@ class Concrete:
                     and any(set(s) == {'S'} for f, s in map(tuple, e['caps']))]
         sv_cands = [e for e in CATALOG if e['vecs']]
         fx_cands = [e for e in CATALOG if e['fixture']]
-        self.sa = rng.choice(sa_cands); self.sv = rng.choice(sv_cands); self.fx = rng.choice(fx_cands)
+        self.sa = rng.choice(sa_cands); self.sv = rng.choice(sv_cands)
+        # the two self-test fixtures: fx = the one with the failing init_var (parameters q, r), fu = the empty one
+        self.fx = [e for e in fx_cands if e['initp']['breaks']][0]; self.fu = [e for e in fx_cands if not e['initp']['breaks']][0]
         a, b = rng.sample(self.sa['pars'], 2)
-        self.par = {'a': a, 'b': b, 'c': rng.choice(self.sv['pars']), 'zz': 'no_such_parameter'}
+        self.par = {'a': a, 'b': b, 'c': rng.choice(self.sv['pars']), 'zz': 'no_such_parameter', 'q': self.fx['initp']['one'][0]}
         self.vec = {'w': rng.choice(self.sv['vecs']), 'zz': 'no_such_vector'}
         sacaps = [tuple(c) for c in self.sa['caps']]; svcaps = [tuple(c) for c in self.sv['caps']]
         fa = [c for c in sacaps if set(c[1]) == {'S'} and c not in svcaps]
@@ -163,6 +165,8 @@ class Concrete:
             return self.sv['name']
         if s == 'fx':
             return self.fx['name']
+        if s == 'fu':
+            return self.fu['name']
         return 'no_such_solution'
 
     def describe(self):
@@ -214,12 +218,11 @@ def sweep_lines(cx, state, precs):
                 L.append(['select', p, 'cxx', HANDLES[h]])
             sol = reg[h]['sol']
             L.append(['name', p, 'cxx']); L.append(['dim', p, 'cxx'])
-            ent = {'sa': cx.sa, 'sv': cx.sv, 'fx': cx.fx}[sol]
-            if not ent['fixture']:
-                for k in ent['pars']:
-                    L.append(['getp', p, 'cxx', k])
-                for k in ent['vecs']:
-                    L.append(['getv', p, 'cxx', k])
+            ent = {'sa': cx.sa, 'sv': cx.sv, 'fx': cx.fx, 'fu': cx.fu}[sol]
+            for k in ent['pars']:
+                L.append(['getp', p, 'cxx', k])
+            for k in ent['vecs']:
+                L.append(['getv', p, 'cxx', k])
         if cur != '$none' and hs and (len(hs) > 1):
             L.append(['select', p, 'cxx', HANDLES[cur]])
     return L
@@ -258,6 +261,7 @@ CONSTANTS
   MCBuild = "@BUILD@"
   EmitEdges = @EMIT@
   TestDefaultOn = %(td)s
+  Lite = %(lite)s
 VIEW View
 INVARIANTS TypeOK SelValid HeapExact RegSound
 PROPERTIES Isolation PrecIndependent SelSticky SelMoves EvalPure FatalIntact FatalOnlyIfMisuse NoUseBeforeInit ReinitFresh SetThenGet
@@ -266,6 +270,6 @@ CHECK_DEADLOCK FALSE
 '''
 
 
-def mc_cfg(prec=('d',), handles=('h1', 'h2'), testdefault=False):
-    return MC_CFG % dict(td='TRUE' if testdefault else 'FALSE', prec='{' + ', '.join('"%s"' % p for p in prec) + '}',
+def mc_cfg(prec=('d',), handles=('h1', 'h2'), testdefault=False, lite=False):
+    return MC_CFG % dict(td='TRUE' if testdefault else 'FALSE', lite='TRUE' if lite else 'FALSE', prec='{' + ', '.join('"%s"' % p for p in prec) + '}',
                          handles='{' + ', '.join('"%s"' % h for h in handles) + '}')
